@@ -63,6 +63,20 @@ CLAIMED = {
         note=COMMON_NOTE + 'Termination is shown as absence of deadlock under the assumption that pending source tasks eventually complete and the '
              'consumer keeps iterating; asyncio.wait/ensure_future semantics are modelled.',
         technique='Lean 4 invariant proof over label lists (LTS) + trace-acceptance correspondence under a permuting event loop'),
+    'C07': dict(
+        text=('Theorems over model E (incoming FIFO → relay thread → per-trace FIFOs → prompt loop, single prompt counter) for every label list, '
+              'i.e. every stream of commands and every interleaving with trace starts/ends and prompt openings: an executed command was '
+              'addressed to exactly that trace and prompt with that text; every sent command is executed or discarded at most once and none '
+              'vanishes (ids in transit/executed/discarded are a permutation of the ids sent); prompt numbers are unique and each prompt is '
+              'answered at most once; a command executes only at the prompt open in its trace and closes it; a mismatching command is '
+              'discarded and the prompt stays open; once answered, a prompt number never executes again in any continuation (stale/duplicate); '
+              'a command for an unknown trace is dropped and nothing else changes; FIFO order per trace. Tied to /repo by exact correspondence of '
+              'the real Prompt plugin, relay_commands thread, PromptFunc counter and Repeater in a real plugin manager with simulated traces, on '
+              'all decoy streams of bounded length and seeded random op sequences (phase-synchronised), plus real-child runs with five decoys '
+              'around every genuine answer.'),
+        design='§6 C07, §5 model E',
+        note=COMMON_NOTE + 'The correspondence samples phase-synchronised schedules (the harness waits for queue quiescence); queue.Queue FIFO/thread-safety is CPython behaviour.',
+        technique='Lean 4 invariant proof over label lists + differential correspondence (hand-written model) + real-child decoy runs'),
 }
 
 REASON_TODO = 'check not built yet in this revision of /verif (planned, see DESIGN.md §6); not claimed until its theorems and correspondence exist'
